@@ -445,6 +445,30 @@ func RunC09(run *vk.Run) {
 			}
 		}
 	}
+	// a bucket outage (or an endorsement published later) is not a fact about the measurement: once the
+	// object can be downloaded, the same long-lived validator accepts the report like a fresh one does
+	{
+		good := env.attOf["endorsed"].GetReport().GetMeasurement()
+		o := env.roots()
+		g := &MapGetter{Body: map[string][]byte{}}
+		o.Getter = g
+		one := verify.SNPValidateFunc(o)
+		a := env.attOf["endorsed"]
+		first := one(a, nil)
+		g.Body[snpURL(good)] = env.eb // the outage ends / the endorsement is published
+		second := one(a, nil)
+		fo := env.roots()
+		fo.Getter = &MapGetter{Body: map[string][]byte{snpURL(good): env.eb}}
+		fresh := verify.SNPValidateFunc(fo)(a, nil)
+		if first == nil {
+			run.AddDrift(1)
+			fmt.Printf("DRIFT property=C09 a report was accepted although its endorsement could not be downloaded\n")
+		}
+		if (second == nil) != (fresh == nil) {
+			run.Violation("not-reentrant:download-failure-remembered", fmt.Sprintf("after one failed download for a measurement, the same validator gives accept=%v for that report once the object is served (%v); a fresh validator at the same moment gives accept=%v", second == nil, second, fresh == nil), nil)
+		}
+		run.Case("successive-download:outage-then-served", true)
+	}
 	// options value must still give isolated results afterwards (successive use)
 	// free-running stress under the race detector (separate -race build)
 	if bin := os.Getenv("VERIF_RACE_BIN"); bin != "" {
@@ -510,6 +534,11 @@ func RaceStress() {
 		os.Exit(3)
 	}
 	one := verify.SNPValidateFunc(env.roots())
+	// a second validator that has to download the endorsement (bucket double serving the endorsed
+	// measurement's object only)
+	dlOpts := env.roots()
+	dlOpts.Getter = &MapGetter{Body: map[string][]byte{snpURL(env.attOf["endorsed"].GetReport().GetMeasurement()): env.eb}}
+	dl := verify.SNPValidateFunc(dlOpts)
 	ctx := fx.Ctx(nil, false, false)
 	sevShared := env.sevOpt()
 	var wg sync.WaitGroup
@@ -527,6 +556,8 @@ func RaceStress() {
 				var err error
 				if i%5 == 4 {
 					err = gtb.SevValidate(ctx, env.attOf[k], sevShared)
+				} else if i%5 == 2 {
+					err = dl(env.attOf[k], nil)
 				} else {
 					err = one(env.attOf[k], env.eb)
 				}
